@@ -45,6 +45,7 @@ def _only_raises(stmts: List[ast.stmt], mi=None, depth: int = 0) -> bool:
     return True
 
 
+_RECORD_CLASSES: set = set()  # NamedTuple / frozen dataclass classes of the tree under analysis (building one is pure)
 PURE_CALLS = {"len", "bool", "int", "float", "abs", "min", "max", "tuple", "isinstance", "sum"}
 
 
@@ -52,7 +53,7 @@ def _pure_expr(e) -> bool:
     for n in ast.walk(e):
         if isinstance(n, ast.Call):
             f = n.func
-            if not (isinstance(f, ast.Name) and f.id in PURE_CALLS):
+            if not (isinstance(f, ast.Name) and (f.id in PURE_CALLS or f.id in _RECORD_CLASSES)):
                 return False
         if isinstance(n, (ast.Lambda, ast.NamedExpr, ast.Yield, ast.YieldFrom, ast.Await, ast.ListComp, ast.GeneratorExp)):
             return False
@@ -138,6 +139,9 @@ def check_mutable_defaults(rep, repo: Repo, pre: str = "") -> int:
 
 def check_transparent_properties(rep, repo: Repo, pre: str = "") -> int:
     n = 0
+    from .ir import named_tuple_fields
+    _RECORD_CLASSES.clear()
+    _RECORD_CLASSES.update(cn for mi in repo.modules.values() for cn in mi.classes if named_tuple_fields(repo, cn) is not None)
     for mi in repo.modules.values():
         for ci in mi.classes.values():
             for name, g in ci.getters.items():
